@@ -287,6 +287,9 @@ def check(pid, tier, seed):
                 violations.append((r, ''))
             else:
                 n_known += 1
+        if hasattr(mod, 'post'):
+            for r in mod.post(ctx, all_cases, failing, known_lines):
+                violations.append((r, ''))
         # --- search when an obligation is broken and no concrete input yet
         if broken and not violations:
             r = mod.search(ctx, broken, all_cases) if hasattr(mod, 'search') else None
